@@ -45,6 +45,8 @@ var capF func() string
 var inst *T
 var bound func() string
 var holder *T
+var boundV func(...int) string
+var capFV func(...int) string
 var captured bool
 
 func F() string {
@@ -55,12 +57,29 @@ func (t *T) M() string {
 	return "M%[1]d"
 }
 
+func (t *T) V(xs ...int) string {
+	return "V%[1]d/" + fmt.Sprint(len(xs))
+}
+
+func FV(xs ...int) string {
+	return "FV%[1]d/" + fmt.Sprint(len(xs))
+}
+
+func Shadow() int {
+	keep := 5
+	keep++
+	keep += 2
+	reinit := keep
+	reinit--
+	return keep*10 + reinit
+}
+
 func helper() string {
 	return F() + "-" + (&T{}).M()
 }
 
 func Main() {
-	fmt.Println(F(), (&T{}).M(), helper())
+	fmt.Println(F(), (&T{}).M(), helper(), Shadow())
 	keep++
 	fmt.Println(keep, reinit, anyv, named == nil)
 	reinit++
@@ -71,6 +90,8 @@ func Capture() {
 	inst = &T{n: %[1]d}
 	bound = inst.M
 	holder = &T{f: F}
+	boundV = inst.V
+	capFV = FV
 	captured = true
 }
 
@@ -79,7 +100,7 @@ func UseCaptured() {
 		fmt.Println("nocap")
 		return
 	}
-	fmt.Println(capF(), inst.M(), bound(), holder.f())
+	fmt.Println(capF(), inst.M(), bound(), holder.f(), boundV(1, 2), capFV(3), inst.V())
 }
 
 func Bump() {
@@ -119,7 +140,7 @@ func (s *c17ref) step(ev int) string {
 		s.reinit = 10
 		return ""
 	case ev == 3:
-		out := fmt.Sprintf("%s %s %s-%s\n", tag(), mt(), tag(), mt())
+		out := fmt.Sprintf("%s %s %s-%s 87\n", tag(), mt(), tag(), mt())
 		s.keep++
 		if s.anyv == "" {
 			s.anyv = "nil"
@@ -134,7 +155,7 @@ func (s *c17ref) step(ev int) string {
 		if !s.captured {
 			return "nocap\n"
 		}
-		return fmt.Sprintf("%s %s %s %s\n", tag(), mt(), mt(), tag())
+		return fmt.Sprintf("%s %s %s %s V%d/2 FV%d/1 V%d/0\n", tag(), mt(), mt(), tag(), s.ver, s.ver, s.ver)
 	case ev == 6:
 		s.keep++
 		s.reinit++
